@@ -8,13 +8,21 @@ For try block `y`: `(g.tryd y).owner` is the task whose body contains the `pip:t
 `(g.tryd y).idx`, `(g.tryd y).body` is the body task (its scope has its OWN context, `ctx = y+1`),
 `(g.tryd y).succ / .fail / .fin` the handlers (they run in the owner's context).
 
-The "if" directions (a handler that has to run does run) hold unless the surrounding context — or
-the root context, whose failure makes the task manager refuse every submission — has a cause of
-failure of its own (`causeFor`): a handler cannot be started in a scope that is already done.
-This is the behaviour of the implementation (after fix 5b521a4; before it the process panicked).
+The "if" directions (a handler that has to run does run) carry a TIMED excuse.  Handlers run in the
+owner's shared context, so a handler may legitimately not start when that context (or the root
+context, whose failure makes the task manager refuse submissions) has failed — but only a failure
+recorded BEFORE the event that seals the handler's fate counts (`handlerFate`, `sealsFate`):
+the handler's own close without a first command (`done h false`, whose clause demands a cause before
+it) or a refused submission of the try (`hrej`, which demands a root cause before it).  A failure
+that comes later — e.g. of the fail handler, after `finally` could have started — excuses nothing
+(`handler_starts_unless_prior_cause`, `finally_starts_unless_prior_cause`; the try goroutine submits
+`finally` first: `finally_submitted_first`).  "Never starts while the other handler runs" cannot be
+seen in one free-running trace; the harness steers the schedule (holds one handler of the try in its
+first command until it has seen the fate of the other) and records a `stall` if nothing happens:
+`stall_free` — under every steering policy and every schedule the model never stalls.
 
-LEVEL: partial, as C14 (model + monitor proved; the implementation is tied by trace conformance).
-Helper lemmas: `Goat/Proofs/Pipeline*.lean`.
+LEVEL: partial, as C14 (model + monitor proved; the implementation is tied by trace conformance,
+free-running and steered).  Helper lemmas: `Goat/Proofs/Pipeline*.lean`.
 -/
 import Goat.Proofs.PipelineExamples
 
@@ -36,13 +44,16 @@ theorem success_iff_body_ok (g : Graph) (hw : wf g = true) (sched : List Label) 
     simp only [if_true] at this
     have h1 := this.1
     unfold submitted at h1; rw [hr] at h1; exact h1
-  · have hpre : TraceOk g pre := traceOk_prefix (b := Ev.done p ok :: post) (by rw [← hs]; exact htr)
-    have hcl := (htr pre _ post hs).2.1 i (List.mem_range.mpr (cmdAt_lt hc)) (cmd_of_ret hpre hret)
-    have := hcl.2 hret
-    rw [hc] at this
-    apply this.2.2 h
-    unfold selected
-    simp [hb, hsu]
+  · have hW := (wf_iff g).mp hw
+    have hpre : TraceOk g pre := traceOk_prefix (b := Ev.done p ok :: post) (by rw [← hs]; exact htr)
+    have hp : p < g.n := by
+      rcases Nat.lt_or_ge p g.n with h1 | h1
+      · exact h1
+      · have := cmdAt_lt hc; rw [body_out h1] at this; simp at this
+    obtain ⟨hy, ho, _⟩ := hW.tryc hp hc
+    have hsel : h ∈ selected g pre y := by unfold selected; simp [hb, hsu]
+    have := fate_cause hW hpre hy (selected_sub_handlers hsel) (fate_at_close hW htr hs hc hret hsel)
+    rw [ho] at this; exact this
 
 /-- The fail handler starts only if the body closed with an error; and when the owner closes, the fail
 handler of a body that closed with an error has been started — unless the owner's (or the root)
@@ -59,13 +70,16 @@ theorem fail_iff_body_err (g : Graph) (hw : wf g = true) (sched : List Label) (p
     simp only [if_true] at this
     have h1 := this.1
     unfold submitted at h1; rw [hr] at h1; exact h1
-  · have hpre : TraceOk g pre := traceOk_prefix (b := Ev.done p ok :: post) (by rw [← hs]; exact htr)
-    have hcl := (htr pre _ post hs).2.1 i (List.mem_range.mpr (cmdAt_lt hc)) (cmd_of_ret hpre hret)
-    have := hcl.2 hret
-    rw [hc] at this
-    apply this.2.2 h
-    unfold selected
-    simp [hb, hsu]
+  · have hW := (wf_iff g).mp hw
+    have hpre : TraceOk g pre := traceOk_prefix (b := Ev.done p ok :: post) (by rw [← hs]; exact htr)
+    have hp : p < g.n := by
+      rcases Nat.lt_or_ge p g.n with h1 | h1
+      · exact h1
+      · have := cmdAt_lt hc; rw [body_out h1] at this; simp at this
+    obtain ⟨hy, ho, _⟩ := hW.tryc hp hc
+    have hsel : h ∈ selected g pre y := by unfold selected; simp [hb, hsu]
+    have := fate_cause hW hpre hy (selected_sub_handlers hsel) (fate_at_close hW htr hs hc hret hsel)
+    rw [ho] at this; exact this
 
 /-- The finally handler starts only after the body closed, whatever the outcome; and when the owner
 closes, the body has closed and the finally handler has been started — unless the owner's (or the
@@ -82,18 +96,24 @@ theorem finally_always (g : Graph) (hw : wf g = true) (sched : List Label) (pre 
     simp only [if_true] at this
     have h1 := this.1
     unfold submitted at h1; rw [hr] at h1; exact h1
-  · have hpre : TraceOk g pre := traceOk_prefix (b := Ev.done p ok :: post) (by rw [← hs]; exact htr)
+  · have hW := (wf_iff g).mp hw
+    have hpre : TraceOk g pre := traceOk_prefix (b := Ev.done p ok :: post) (by rw [← hs]; exact htr)
     have hcl := (htr pre _ post hs).2.1 i (List.mem_range.mpr (cmdAt_lt hc)) (cmd_of_ret hpre hret)
-    have := hcl.2 hret
-    rw [hc] at this
-    refine ⟨this.1, this.2.2 h ?_⟩
-    unfold selected
-    simp [hsu]
+    have hbody := hcl.2 hret
+    rw [hc] at hbody
+    have hp : p < g.n := by
+      rcases Nat.lt_or_ge p g.n with h1 | h1
+      · exact h1
+      · have := cmdAt_lt hc; rw [body_out h1] at this; simp at this
+    obtain ⟨hy, ho, _⟩ := hW.tryc hp hc
+    have hsel : h ∈ selected g pre y := by unfold selected; simp [hsu]
+    have := fate_cause hW hpre hy (selected_sub_handlers hsel) (fate_at_close hW htr hs hc hret hsel)
+    rw [ho] at this; exact ⟨hbody.1, this⟩
 
 /-- Handlers start only after the body has closed, and a task — in particular the body of a try
 block — closes only after everything it submitted has closed: nested `pip:run` tasks, the bodies of
-nested try blocks and every handler of them that ran.  So a handler never overlaps the body or
-anything the body spawned. -/
+nested try blocks and every handler of them that ran or was accepted by the task manager.  So a
+handler never overlaps the body or anything the body spawned. -/
 theorem handlers_after_body_and_spawned (g : Graph) (hw : wf g = true) (sched : List Label)
     (pre post : List Ev) :
     (∀ h y, (run g sched).tr = pre ++ Ev.cmd h 0 :: post → y < g.tries.length → h ∈ g.handlers y →
@@ -102,7 +122,7 @@ theorem handlers_after_body_and_spawned (g : Graph) (hw : wf g = true) (sched : 
       Ev.ret t i true ∈ pre → hasDone pre c) ∧
     (∀ t ok i y, (run g sched).tr = pre ++ Ev.done t ok :: post → g.cmdAt t i = some (.try_ y) →
       Ev.ret t i true ∈ pre →
-      hasDone pre (g.tryd y).body ∧ ∀ h ∈ g.handlers y, Ev.cmd h 0 ∈ pre → hasDone pre h) := by
+      hasDone pre (g.tryd y).body ∧ ∀ h ∈ g.handlers y, (Ev.cmd h 0 ∈ pre ∨ Ev.hacc h ∈ pre) → hasDone pre h) := by
   have hW := (wf_iff g).mp hw
   have htr := run_traceOk hW sched
   refine ⟨fun h y hs hy hh => ?_, fun t ok i c hs hc hret => ?_, fun t ok i y hs hc hret => ?_⟩
@@ -164,6 +184,136 @@ theorem body_failure_contained (g : Graph) (hw : wf g = true) (sched : List Labe
     simp only [if_true] at this
     exact this u (List.mem_range.mpr hu) hd
 
+/-! ### The timed excuse -/
+
+/-- Handlers are SUBMITTED only after the body has closed with the matching outcome: the acceptance
+(`hacc`) or refusal (`hrej`) of a handler submission is preceded by the close of the body — any close
+for `finally`, a close without error for the success handler, with an error for the fail handler —
+and a refusal moreover by a cause of failure in the ROOT context. -/
+theorem handlers_submitted_after_body (g : Graph) (hw : wf g = true) (sched : List Label) (pre post : List Ev)
+    (h : Nat) :
+    ((run g sched).tr = pre ++ Ev.hacc h :: post → isHandler g h = true ∧ submitted g pre h) ∧
+    ((run g sched).tr = pre ++ Ev.hrej h :: post →
+      isHandler g h = true ∧ submitted g pre h ∧ causeIn g 0 pre) := by
+  have htr := run_traceOk ((wf_iff g).mp hw) sched
+  exact ⟨fun hs => htr pre _ post hs, fun hs => htr pre _ post hs⟩
+
+/-- In every run the try goroutine submits `finally` FIRST: when the submission of the fail or of the
+success handler is decided (accepted or refused), the finally handler of the same try — if one is
+defined — has already been accepted.  (A refused `finally` ends the try goroutine: nothing else is
+submitted.)  This is a fact about the model, not a clause of the monitor: the property does not
+prescribe an order of submission. -/
+theorem finally_submitted_first (g : Graph) (hw : wf g = true) (sched : List Label) (pre post : List Ev)
+    (h y f : Nat) (hr : g.role h = .hfail y ∨ g.role h = .hsucc y) (hf : (g.tryd y).fin = some f) :
+    ((run g sched).tr = pre ++ Ev.hacc h :: post → Ev.hacc f ∈ pre) ∧
+    ((run g sched).tr = pre ++ Ev.hrej h :: post → Ev.hacc f ∈ pre) := by
+  have ho := run_traceOrd ((wf_iff g).mp hw) sched
+  exact ⟨fun hs => ho pre _ post hs y f hr hf, fun hs => ho pre _ post hs y f hr hf⟩
+
+/-- Every handler that has to run — `finally`, and the one selected by the outcome of the body — has
+STARTED when the owner of the try block closes, unless its fate was sealed by an event with a cause of
+failure (in the owner's or the root context) strictly BEFORE that event: `pre = a ++ e :: b` where `e`
+is the handler's own close without a first command (`done h false`; it had been accepted, `hacc`) or
+a refused handler submission of this try (`hrej`), and the cause lies in `a`.  A failure recorded
+after that event — in particular one produced by another handler of the same try — is no excuse. -/
+theorem handler_starts_unless_prior_cause (g : Graph) (hw : wf g = true) (sched : List Label)
+    (pre post : List Ev) (p i y h : Nat) (ok : Bool)
+    (hs : (run g sched).tr = pre ++ Ev.done p ok :: post) (hc : g.cmdAt p i = some (.try_ y))
+    (hret : Ev.ret p i true ∈ pre) (hsel : h ∈ selected g pre y) :
+    handlerFate g pre y h ∧
+    (Ev.cmd h 0 ∈ pre ∨ ∃ a e b, pre = a ++ e :: b ∧ sealsFate g y h e ∧ causeFor g a p) := by
+  have hW := (wf_iff g).mp hw
+  have htr := run_traceOk hW sched
+  have hpre : TraceOk g pre := traceOk_prefix (b := Ev.done p ok :: post) (by rw [← hs]; exact htr)
+  have hp : p < g.n := by
+    rcases Nat.lt_or_ge p g.n with h1 | h1
+    · exact h1
+    · have := cmdAt_lt hc; rw [body_out h1] at this; simp at this
+  obtain ⟨hy, ho, _⟩ := hW.tryc hp hc
+  have hf := fate_at_close hW htr hs hc hret hsel
+  have := fate_timed hW hpre hy (selected_sub_handlers hsel) hf
+  rw [ho] at this
+  exact ⟨hf, this⟩
+
+/-- `finally` in particular: whatever the outcome of the body, when the owner closes the finally
+handler has started, or its fate was sealed by an event with a cause of failure strictly before it. -/
+theorem finally_starts_unless_prior_cause (g : Graph) (hw : wf g = true) (sched : List Label)
+    (pre post : List Ev) (p i y f : Nat) (ok : Bool)
+    (hs : (run g sched).tr = pre ++ Ev.done p ok :: post) (hc : g.cmdAt p i = some (.try_ y))
+    (hret : Ev.ret p i true ∈ pre) (hf : (g.tryd y).fin = some f) :
+    Ev.cmd f 0 ∈ pre ∨ ∃ a e b, pre = a ++ e :: b ∧ sealsFate g y f e ∧ causeFor g a p :=
+  (handler_starts_unless_prior_cause g hw sched pre post p i y f ok hs hc hret
+    (by unfold selected; simp [hf])).2
+
+/-! ### Steered schedules
+
+`pol y` says how the harness's gate controller steers try block `y`: it holds the first command of
+the selected handler until it has seen the fate of `finally` (`holdSel`), or the first command of
+`finally` until it has seen the fate of the selected handler (`holdFin`); "fate" = first command
+(or close, `untilDone`), close, or a refused submission of that try.  `sysS g pol` is the model with
+the held steps disabled, `sysC g pol` adds the controller's time-out, which fires only when nothing
+can move and then records `stall`. -/
+
+/-- No stall, ever: under every steering policy and every schedule (of model steps and time-out
+attempts) the controller's time-out never fires — no `stall` event is recorded and no handler is
+ever let go by a time-out. -/
+theorem stall_free (g : Graph) (hw : wf g = true) (pol : Nat → Steer) (sched : List CLabel) :
+    (∀ t, Ev.stall t ∉ (runC g pol sched).st.tr) ∧ (runC g pol sched).rel = [] :=
+  ⟨fun t => no_stall ((wf_iff g).mp hw) sched t, (cinv_run ((wf_iff g).mp hw) sched).rel⟩
+
+/-- … because whenever the controller holds a handler `h`, the handler `w` it waits for belongs to the
+same try, is itself not held, and is live: either the try goroutine can take its next step (it has
+not submitted `w` yet), or `w` is an accepted task that has not closed — and (`steered_no_deadlock`)
+something that is not held can always move. -/
+theorem held_handler_awaits_live (g : Graph) (hw : wf g = true) (pol : Nat → Steer) (sched : List Label)
+    (h : Nat) (hb : blocked g pol ((sysS g pol).run sched) (.task h) = true) :
+    ∃ y w, y < g.tries.length ∧ w < g.n ∧ g.depth w = g.depth h ∧
+      blocked g pol ((sysS g pol).run sched) (.task w) = false ∧
+      ((step g ((sysS g pol).run sched) (.tryg y)).isSome = true ∨
+       ((((sysS g pol).run sched).pc w).accepted = true ∧ ((sysS g pol).run sched).pc w ≠ .finished)) :=
+  awaited ((wf_iff g).mp hw)
+    (inv_reachable ((wf_iff g).mp hw) (reachableS_reachable (LTS.run_reachable (sysS g pol) sched))) hb
+
+/-- deadlock freedom under steering: while the main thread has not finished, some step that the
+controller does not hold back is enabled -/
+theorem steered_no_deadlock (g : Graph) (hw : wf g = true) (pol : Nat → Steer) (sched : List Label)
+    (h : ((sysS g pol).run sched).mp ≠ .finished) :
+    ∃ l, (stepS g pol ((sysS g pol).run sched) l).isSome = true := by
+  have hW := (wf_iff g).mp hw
+  obtain ⟨l, hnb, hl⟩ := progressS (pol := pol) hW
+    (inv_reachable hW (reachableS_reachable (LTS.run_reachable (sysS g pol) sched))) h
+  exact ⟨l, by unfold stepS; rw [hnb]; exact hl⟩
+
+/-- … and every steered run can be continued until the main thread has finished (every step
+decreases the measure `mu`): every hold is released. -/
+theorem steered_all_finish (g : Graph) (hw : wf g = true) (pol : Nat → Steer) (sched : List Label) :
+    ∃ ext, ((sysS g pol).run (sched ++ ext)).mp = .finished := by
+  obtain ⟨ext, hext⟩ := can_finishS (pol := pol) ((wf_iff g).mp hw) _ _ (LTS.run_reachable (sysS g pol) sched) rfl
+  exact ⟨ext, by unfold LTS.Sys.run; rw [LTS.runFrom_append]; exact hext⟩
+
+/-- a steered run is a run of the model: the monitor accepts its trace -/
+theorem steered_runs_accepted (g : Graph) (hw : wf g = true) (pol : Nat → Steer) (sched : List Label) :
+    accepts g ((sysS g pol).run sched).tr = true :=
+  runS_accepted ((wf_iff g).mp hw) pol sched
+
+set_option maxRecDepth 8000 in
+/-- steering in action on the example graph: the fail handler (2) sits in its first command and is
+held because `finally` (3) has not started — its step is enabled in the model but disabled under the
+policy; after two steps of `finally` it is free; the whole steered run ends with both handlers run -/
+example :
+    blocked gEx16 polSel ((sysS gEx16 polSel).run schedHeld) (.task 2) = true ∧
+    (step gEx16 ((sysS gEx16 polSel).run schedHeld) (.task 2)).isSome = true ∧
+    (stepS gEx16 polSel ((sysS gEx16 polSel).run schedHeld) (.task 2)).isNone = true ∧
+    blocked gEx16 polSel ((sysS gEx16 polSel).run (schedHeld ++ rep 2 (.task 3))) (.task 2) = false ∧
+    Ev.cmd 3 0 ∈ ((sysS gEx16 polSel).run schedSteered).tr ∧ Ev.done 2 true ∈ ((sysS gEx16 polSel).run schedSteered).tr := by
+  refine ⟨by decide, by decide, by decide, by decide, ?_, ?_⟩
+  · rw [gEx16_steered_trace]; decide
+  · rw [gEx16_steered_trace]; decide
+
+set_option maxRecDepth 8000 in
+/-- … and the time-out on behalf of the held handler is not enabled there -/
+example : stepC gEx16 polSel ⟨(sysS gEx16 polSel).run schedHeld, []⟩ (.timeout 2) = none := by decide
+
 /-- the example run: the body (task 1, context 1) fails at its second command; the fail handler (2)
 and the finally handler (3) run after the body closed, the success handler (4) never does; the
 owner (0) continues after the try block and closes without error, the root reports no error, and
@@ -204,6 +354,33 @@ example : accepts gEx16 [.sub 0, .acc 0, .cmd 0 0, .ret 0 0 true, .cmd 0 1, .ret
 /-- … a handler that starts before the body has closed … -/
 example : accepts gEx16 [.sub 0, .acc 0, .cmd 0 0, .ret 0 0 true, .cmd 0 1, .ret 0 1 true, .cmd 1 0,
     .cmd 3 0] = false := by decide
+
+/-- … a `finally` that is never submitted: the later failure of the fail handler (2) is NO excuse any
+more (before the excuse was timed this trace was accepted) … -/
+example : accepts gEx16f [.sub 0, .acc 0, .cmd 0 0, .ret 0 0 true, .cmd 0 1, .ret 0 1 true, .cmd 1 0,
+    .ret 1 0 true, .cmd 1 1, .ret 1 1 false, .done 1 false, .hacc 2, .cmd 2 0, .ret 2 0 false, .done 2 false,
+    .done 0 false] = false := by decide
+
+/-- … whereas a `finally` that was accepted and closed without a first command AFTER the fail handler had
+failed is excused (RunLoop took the `<-Done()` branch): the cause precedes the sealing event `done 3 false` -/
+example : accepts gEx16f [.sub 0, .acc 0, .cmd 0 0, .ret 0 0 true, .cmd 0 1, .ret 0 1 true, .cmd 1 0,
+    .ret 1 0 true, .cmd 1 1, .ret 1 1 false, .done 1 false, .hacc 3, .hacc 2, .cmd 2 0, .ret 2 0 false,
+    .done 2 false, .done 3 false, .done 0 false] = true := by decide
+
+/-- … a `finally` that closes without a first command with NO cause before its close is rejected … -/
+example : accepts gEx16f [.sub 0, .acc 0, .cmd 0 0, .ret 0 0 true, .cmd 0 1, .ret 0 1 true, .cmd 1 0,
+    .ret 1 0 true, .cmd 1 1, .ret 1 1 false, .done 1 false, .hacc 3, .hacc 2, .cmd 2 0, .done 3 false] = false := by
+  decide
+
+/-- … a stall of `finally` while the held fail handler has not failed yet is rejected (the trace of an
+implementation that queues `finally` behind the selected handler, under steering) … -/
+example : accepts gEx16f [.sub 0, .acc 0, .cmd 0 0, .ret 0 0 true, .cmd 0 1, .ret 0 1 true, .cmd 1 0,
+    .ret 1 0 true, .cmd 1 1, .ret 1 1 false, .done 1 false, .hacc 2, .hacc 3, .cmd 2 0, .stall 3] = false := by decide
+
+/-- … a stall after a cause of failure in the owner's context is tolerated … -/
+example : accepts gEx16f [.sub 0, .acc 0, .cmd 0 0, .ret 0 0 true, .cmd 0 1, .ret 0 1 true, .cmd 1 0,
+    .ret 1 0 true, .cmd 1 1, .ret 1 1 false, .done 1 false, .hacc 3, .hacc 2, .cmd 2 0, .ret 2 0 false, .stall 3] = true := by
+  decide
 
 /-- … and an owner that is marked failed by nothing but the failure of the body -/
 example : accepts gEx16 [.sub 0, .acc 0, .cmd 0 0, .ret 0 0 true, .cmd 0 1, .ret 0 1 true, .cmd 1 0,
